@@ -2111,7 +2111,7 @@ class SourceCatalog:
         if self._error is None:
             err = self._null_values
         else:
-            err = np.sqrt(np.array([np.sum(arr**2)
+            err = np.sqrt(np.array([np.sum(arr.astype(float)**2)
                                     for arr in self._error_values]))
 
         if self._data_unit is not None:
@@ -2740,7 +2740,7 @@ class SourceCatalog:
         data_mask = self._make_cutout_data_mask(data, mask_cutout)
 
         if make_error and self._error is not None:
-            error = self._error[slc_lg]
+            error = self._error[slc_lg].astype(float)
         else:
             error = None
 
